@@ -153,7 +153,7 @@ def main(prop, jobs, tier, level_note, not_under_contract=(), bounded_standin=No
         externals |= set(r.meta.get('externals', []))
         if r.sample and len(samples) < 12:
             samples.append(dict(r.sample, job=j.name))
-        canaries.append({'job': j.name, 'canary': r.canary})
+        canaries.append({'job': j.name, 'canary': r.canary, 'reachability_witnesses': [{'case': w, 'status': st} for (w, st) in getattr(r, 'witnesses', [])]})
         if j.bounded:
             bounded_only.append({'job': j.name, 'bound': j.bounded, 'obligations': r.obligations})
         for k in r.known_hits:
